@@ -230,6 +230,35 @@ def parse_tuple(line):
     return val()
 
 
+def printed_tuples(raw, tag):
+    """All PrintT'ed tuples <<"tag", ...>> in TLC's output.  TLC pretty-prints long values over
+    several lines, so match brackets across newlines instead of looking at single lines."""
+    out = []
+    for m in re.finditer(r'<<\s*"%s"' % re.escape(tag), raw):
+        i, depth, in_str = m.start(), 0, False
+        j = i
+        while j < len(raw):
+            ch = raw[j]
+            if in_str:
+                if ch == "\\":
+                    j += 1
+                elif ch == '"':
+                    in_str = False
+            elif ch == '"':
+                in_str = True
+            elif raw.startswith("<<", j):
+                depth += 1
+                j += 1
+            elif raw.startswith(">>", j):
+                depth -= 1
+                j += 1
+                if depth == 0:
+                    out.append(raw[i:j + 1])
+                    break
+            j += 1
+    return out
+
+
 def _strip_none(v):
     """TLC's Json module rejects null: drop None-valued keys (specs never read them)."""
     if isinstance(v, dict):
@@ -257,10 +286,11 @@ def batch_validate(module, cfg, cases, env=None, timeout=900, tag=None):
     finally:
         os.unlink(path)
     rejects = []
-    for line in r.printed:
-        if line.startswith('<<"REJECT"'):
-            v = parse_tuple(line)
-            rejects.append((v[1], v[2] if len(v) > 2 else "?", v[3:] if len(v) > 3 else []))
+    for text in printed_tuples(r.raw, "REJECT"):
+        v = parse_tuple(text)
+        rejects.append((v[1], v[2] if len(v) > 2 else "?", v[3:] if len(v) > 3 else []))
+    if len(rejects) != len(re.findall(r'<<\s*"REJECT"', r.raw)):
+        raise TLCError("could not parse every REJECT tuple in TLC output of %s" % module)
     return rejects, r
 
 
